@@ -39,12 +39,14 @@ pub struct ScriptedReader {
     /// next boundary and the schedule only contributes its `Pending`s
     pub bounds: Option<Vec<usize>>,
     pub log: Vec<PollLog>,
+    /// mirror of `pos` for an observer that cannot borrow the reader (the protocol object owns the borrow)
+    pub shared_pos: Option<std::sync::Arc<std::sync::atomic::AtomicUsize>>,
 }
 
 impl ScriptedReader {
     pub fn new(data: Vec<u8>, sched: Vec<Sched>, default_chunk: usize) -> Self {
         let n = data.len();
-        ScriptedReader { data, pos: 0, eof_at: n, sched, step: 0, default_chunk, bounds: None, log: Vec::new() }
+        ScriptedReader { data, pos: 0, eof_at: n, sched, step: 0, default_chunk, bounds: None, log: Vec::new(), shared_pos: None }
     }
     pub fn max_cap(&self) -> usize {
         self.log.iter().map(|l| l.cap).max().unwrap_or(0)
@@ -77,6 +79,9 @@ impl AsyncRead for ScriptedReader {
                 let (a, b) = (self.pos, self.pos + n);
                 buf.put_slice(&self.data[a..b]);
                 self.pos = b;
+                if let Some(sp) = &self.shared_pos {
+                    sp.store(b, std::sync::atomic::Ordering::SeqCst);
+                }
                 self.log.push(PollLog { cap, got: Some(n) });
                 Poll::Ready(Ok(()))
             }
